@@ -675,3 +675,77 @@ Proof.
     apply (selected_in_vars I x) in Hv. destruct (var_nodes_lt I Hwf v Hv) as [Ho Hd].
     split; [|lia]. cbn. repeat split; auto. lia.
 Qed.
+
+(* ====================================================================== *)
+(* 9. converse: a route decomposition gives the local form                 *)
+(* ====================================================================== *)
+Lemma chain_balance (Pin Pout : var -> bool) :
+  (forall a b, dest a = orig b -> Pin a = Pout b) ->
+  forall tl a, chained (a :: tl) ->
+    ((if Pout a then 1 else 0) + cnt Pin (a :: tl) =
+     cnt Pout (a :: tl) + (if Pin (last tl a) then 1 else 0))%nat.
+Proof.
+  intros Hlink. induction tl as [|b tl IH]; intros a Hch.
+  - rewrite !cnt_cons. unfold cnt; simpl. lia.
+  - destruct Hch as [Hab Hch]. specialize (IH b Hch).
+    rewrite last_cons_default. rewrite (cnt_cons Pin a), (cnt_cons Pout a).
+    rewrite (Hlink a b Hab). lia.
+Qed.
+
+Lemma walk_balance_node j r : walk r -> j <> 0%nat -> cnt (outof_node j) r = cnt (into_node j) r.
+Proof.
+  destruct r as [|a tl]; [intros []|]. intros (Ho & Hl & Hch) Hj.
+  pose proof (chain_balance (into_node j) (outof_node j)) as H.
+  specialize (H ltac:(intros u v E; unfold into_node, outof_node, dnode, onode; rewrite E; reflexivity) tl a Hch).
+  assert (E1 : outof_node j a = false) by (apply outof_node_false; lia).
+  assert (E2 : into_node j (last tl a) = false) by (apply into_node_false; lia).
+  rewrite E1, E2 in H. lia.
+Qed.
+
+Lemma walk_balance_nt j t r : walk r -> j <> 0%nat -> cnt (outof (j, t)) r = cnt (into (j, t)) r.
+Proof.
+  destruct r as [|a tl]; [intros []|]. intros (Ho & Hl & Hch) Hj.
+  pose proof (chain_balance (into (j, t)) (outof (j, t))) as H.
+  specialize (H ltac:(intros u v E; unfold into, outof; rewrite E; reflexivity) tl a Hch).
+  assert (E1 : outof (j, t) a = false).
+  { destruct (outof (j, t) a) eqn:E; [|reflexivity]. apply outof_implies_node, outof_node_true in E. lia. }
+  assert (E2 : into (j, t) (last tl a) = false).
+  { destruct (into (j, t) (last tl a)) eqn:E; [|reflexivity]. apply into_implies_node, into_node_true in E. lia. }
+  rewrite E1, E2 in H. lia.
+Qed.
+
+Lemma cnt_concat P (ls : list (list var)) : cnt P (concat ls) = fold_right (fun r acc => (cnt P r + acc)%nat) 0%nat ls.
+Proof. induction ls as [|r ls IH]; [reflexivity|]. simpl. rewrite cnt_app, IH. reflexivity. Qed.
+
+Lemma walks_balance (Pin Pout : var -> bool) routes :
+  Forall walk routes -> (forall r, walk r -> cnt Pout r = cnt Pin r) ->
+  cnt Pout (concat routes) = cnt Pin (concat routes).
+Proof.
+  intros Hw H. rewrite !cnt_concat. induction Hw as [|r rs Hr _ IH]; [reflexivity|].
+  simpl. rewrite IH, (H r Hr). reflexivity.
+Qed.
+
+Lemma sroute_walk r : sroute r -> walk r.
+Proof. destruct r as [|a tl]; [intros [[] _]|]. intros [(Hc & Hl & _) Ho]. cbn. auto. Qed.
+
+Theorem local_of_walks I x routes :
+  Permutation (selected I x) (concat routes) -> Forall walk routes ->
+  (forall j, (1 <= j < length (nodes (ig I)))%nat -> cnt (into_node j) (concat routes) = 1%nat) ->
+  local_form I x.
+Proof.
+  intros Hp Hw Hc j Hj. specialize (Hc j Hj).
+  destruct (cnt_witness (into_node j) (concat routes)) as (u & Hu & Hin); [lia|].
+  exists (arr u). rewrite !(cnt_perm _ _ _ Hp).
+  assert (Hjt : cnt (into (j, arr u)) (concat routes) = 1%nat).
+  { assert ((1 <= cnt (into (j, arr u)) (concat routes))%nat).
+    { apply (cnt_In _ u); [exact Hu|]. apply into_true. apply into_node_true in Hin.
+      rewrite dest_eta, Hin. reflexivity. }
+    assert ((cnt (into (j, arr u)) (concat routes) <= cnt (into_node j) (concat routes))%nat)
+      by (apply cnt_mono; intros v; apply into_implies_node).
+    lia. }
+  split; [exact Hc|]. split; [exact Hjt|]. split.
+  - rewrite (walks_balance (into_node j) (outof_node j) routes Hw); [exact Hc|].
+    intros r Hr. apply walk_balance_node; [exact Hr | lia].
+  - rewrite (walks_balance (into (j, arr u)) (outof (j, arr u)) routes Hw); [exact Hjt|].
+    intros r Hr. apply walk_balance_nt; [exact Hr | lia].
+Qed.
